@@ -247,7 +247,8 @@ func refContainer(kind string, b, dict []byte, multistream bool) Oracle {
 	// gzip
 	pos := 0
 	for {
-		if pos == len(b) && len(o.MemberEnds) > 0 {
+		if pos == len(b) && (len(o.MemberEnds) > 0 || len(b) == 0) {
+			// the end of the last member; an empty input is an empty, valid gzip file
 			o.RefVerdict, o.RefEnd = "eof", pos
 			return o
 		}
